@@ -160,9 +160,14 @@ def is_byte_reversal(fn):
             try:
                 m = ceval.Machine(fn, {ps[0].name: list(data), ps[1].name: n}, lambda name, args, node: None)
                 m.run()
-            except AnalysisError:
+            except ceval.OutOfBounds:
+                # evaluated up to an access beyond the n bytes it was handed: certainly not an in-place reversal of them
                 ok = False
                 break
+            except AnalysisError as e:
+                # what the helper does to the bytes is not known: neither "a reversal" nor "not a reversal"
+                raise AnalysisError("%s(): the helper handed (address, size) could not be evaluated (%s): whether it reverses the "
+                                    "bytes is not decided" % (fn.name, str(e)[:120]))
             views = [v for k_, v in m.env.items() if isinstance(v, list) and len(v) == n]
             if not views or not all(v == data or v == data[::-1] for v in views) or not any(v == data[::-1] for v in views):
                 ok = False
@@ -277,10 +282,13 @@ def fill_table(repo=None):
                         {"DT": "dtype_id", "CDT": "complex_dtype_id"}.get(tid, tid), "complex_dtype_id" if cplx else "dtype_id",
                         "complex" if cplx else "real"))
                 et = _elem_types(fn, addr.var) if isinstance(addr, ceval.Addr) and addr.var else None
-                if et is None or addr.var not in m.env:
-                    probs.append("fill value object not resolved (%r)" % (addr,))
+                if isinstance(addr, int) and addr == 0:
+                    probs.append("a NULL fill value is passed (the fill value is left undefined)")
                     rows.append((host_little, order, probs, desc, line, False))
                     continue
+                if et is None or addr.var not in m.env:
+                    # a buffer filled by memcpy, a pointer chosen by a table ...: what it holds is not known, which is not "wrong"
+                    raise AnalysisError("%s: the object handed to H5Pset_fill_value at line %s (%r) was not resolved" % (F, line, addr))
                 val = m.env[addr.var]
                 if addr.index is not None:
                     val = val[addr.index] if isinstance(val, list) and isinstance(addr.index, int) and 0 <= addr.index < len(val) else None
@@ -410,7 +418,11 @@ def value_under(fn, target, env, names):
     source order, a store counts when every enclosing if/?: condition that mentions a flag evaluates to its branch.
     Returns (value node or bool, store node) or (None, None)."""
     best = (None, None)
-    for p, n, rhs, k in clib.stores(fn):
+    defs = [(p, n, rhs, k) for p, n, rhs, k in clib.stores(fn)]
+    # `const T target = <expression>;` is a store like any other (a declaration with a non-constant initialiser)
+    defs += [(d.name, d, d.children[-1], "=") for d in fn.find("VarDecl") if d.name == target and d.children
+             and d.children[-1].kind not in ("InitListExpr",)]
+    for p, n, rhs, k in sorted(defs, key=lambda t: t[1].begin):
         if p != target or k != "=" or rhs is None:
             continue
         live = True
@@ -611,6 +623,11 @@ def _rows_target(cf):
     if dims_var is None:
         raise AnalysisError("%s: `%s = H5Screate_simple(...)` not found" % (cf.name, space))
     sets = [(node, rhs) for path, node, rhs, kind in clib.stores(cf) if path == dims_var + "[0]" and kind == "="]
+    if not sets:
+        # `hsize_t dims[2] = {rows, columns};`: element 0 of the initialiser is the store
+        for d in cf.find("VarDecl"):
+            if d.name == dims_var and d.children and d.children[-1].kind == "InitListExpr" and d.children[-1].children:
+                sets = [(d, d.children[-1].children[0])]
     if len(sets) == 1:
         v = sets[0][1].strip(casts=True).path()
         locals_ = {d.name for d in cf.find("VarDecl")}
@@ -658,7 +675,13 @@ def r5_dataset_sized_per_file(repo=None):
     sets = [n for n in g.nodes if n.kind == "stmt" and n.ast is not None and n.ast.kind == "BinaryOperator" and n.ast.opcode == "="
             and n.ast.children[0].path() == dims_var + "[0]"]
     if not sets:
-        decl = [d for d in fn.find("VarDecl") if d.name == dims_var]
+        decl = [d for d in fn.find("VarDecl") if d.name == dims_var and d.children and d.children[-1].kind == "InitListExpr" and d.children[-1].children]
+        if len(decl) == 1 and any(x.kind in ("DeclRefExpr", "MemberExpr") for x in decl[0].children[-1].children[0].walk()):
+            # the array is declared with its sizes: the initialiser runs on every path on which the array exists
+            r.ok("%s:%s %s" % (LIB, decl[0].line, fn.name), "%s[0] is initialised with %s where the array is declared" % (
+                dims_var, re.sub(r"\s", "", decl[0].children[-1].children[0].nsrc)))
+            r.guard(2)
+            return r
         raise AnalysisError("%s: no assignment to %s[0]" % (fn.name, dims_var))
     skip2 = [m_ for m_ in mk if m_.id in g.reach([g.entry.id], avoid=[n.id for n in sets])]
     if skip2:
@@ -671,9 +694,18 @@ def r5_dataset_sized_per_file(repo=None):
     return r
 
 
+def r6_slots_of_the_samples_own_file(repo=None):
+    """'Slots that were never written read as the missing-data value': a slot stays unwritten only if no write of *another* period
+    lands in it.  The slot of a sample is (capacity of its file - samples left in it), both outputs of the naming function of the
+    sample (C04.R9): claimed here as the necessary condition that the data-set offset of a write is derived from the sample and
+    not from a window the writer remembered."""
+    from . import c04
+    return c04.r9_target_file_derived_from_the_sample(repo, rid="C07.R6")
+
+
 def rules(repo=None):
     return [lambda: r1_fill_table(repo), lambda: r2_exhaustive(repo), lambda: r3_representation_switch(repo),
-            lambda: r4_property_list_owners(repo), lambda: r5_dataset_sized_per_file(repo)]
+            lambda: r4_property_list_owners(repo), lambda: r5_dataset_sized_per_file(repo), lambda: r6_slots_of_the_samples_own_file(repo)]
 
 
 EXPLANATION = (
@@ -686,7 +718,9 @@ EXPLANATION = (
     "20 cells return 0 with a fill value. R3: needs_chunking over the 8 flag combinations (stores evaluated under their "
     "enclosing conditions / ?: operators); dataset size, start offset and index rebasing follow the flag; fill value installed "
     "before any dataset creation. R4: who-may-configure the property list (aliases of dataset_prop followed). R5: every path to "
-    "H5Dcreate2 in digital_rf_create_hdf5_file creates the data space anew from this call's dims[0] (must-pass). Does NOT "
+    "H5Dcreate2 in digital_rf_create_hdf5_file creates the data space anew from this call's dims[0] (must-pass). R6 (= C04.R9): the "
+    "target file, its capacity and the samples left in it - from which the slot of a write is computed - are written only by the "
+    "naming function of the sample, never from mutable writer state. Does NOT "
     "decide HDF5's own fill behaviour or slot counting.")
 TECHNIQUE = ("clang JSON AST; concrete interpretation of one function's CFG over a finite domain with an oracle for external "
              "calls (decision table by evaluation); flag truth tables; CFG must-pass; who-may-call table")
